@@ -30,7 +30,7 @@ ASSUMPTIONS = [
     "noise lines are inserted inside sections (after their title), not before the first section and not inside ~Other, whose lines are content",
 ]
 REQUIRED = ["pairs_compared", "t_noise_header", "t_noise_data", "t_pad_lines", "t_crlf", "t_no_final_newline", "t_rewrap", "t_redelimit",
-            "t_pad_fields", "t_noise_burst", "rewrap_width_divides", "rewrap_width_not_divides", "corpus_pairs", "generated_pairs", "engine_normal_pairs"]
+            "t_pad_fields", "t_noise_burst", "rewrap_width_divides", "rewrap_width_not_divides", "corpus_pairs", "generated_pairs", "engine_normal_pairs", "redelimit_tab_runs"]
 SOFT_DEADLINE = {"quick": 100, "thorough": 1500}
 LEVEL_TEXT = "Metamorphic exploration: equality of two observed reads under composed presentation-only transformations."
 LEVEL_NOTE = "Equality of two executions; trusts the transformations to be presentation-only (they act on whitespace, line ends, comment lines, wrapping and the declared delimiter only)."
@@ -64,7 +64,7 @@ def grid(tier):
             k += 1
             yield {"base": "gen", "seed": k, "wrap": False, "ts": ["noise_burst"], "dlm": dlm}
     for dlm in ("SPACE", "TAB", "COMMA"):
-        for pad in (False, True):
+        for pad in (False, True) + (("runs",) if dlm == "TAB" else ()):
             for rep in range(4):
                 k += 1
                 yield {"base": "gen", "seed": k, "wrap": False, "ts": ["redelimit"], "dlm": dlm, "to": [dlm, pad]}
@@ -231,8 +231,11 @@ def run_case(case, ctx):
                 if wrap_width > c:
                     ctx.count("rewrap_lines_span_depth_steps")
         if "redelimit" in ts and not wrap:
-            to, pad = case.get("to") or [rng.choice(["SPACE", "TAB", "COMMA"]), rng.random() < 0.5]
+            to, pad = case.get("to") or [rng.choice(["SPACE", "TAB", "COMMA"]), rng.choice([False, True, "runs"])]
             sep = {"SPACE": rng.choice(["  ", "     "]) if pad else " ", "TAB": " \t " if pad else "\t", "COMMA": rng.choice([", ", " , ", " ,"]) if pad else ","}[to]
+            if pad == "runs" and to == "TAB":
+                sep = rng.choice(["\t\t", "\t\t\t"])          # "the amount of ... tabs between fields": a run of tabs is one separator
+                ctx.count("redelimit_tab_runs")
             secs2 = [dict(s) for s in secs]
             v = secs2[0]
             v["items"] = [it for it in v["items"] if it[0] != "DLM"] + ([["DLM", "", to, "delimiter"]] if to != "SPACE" or rng.random() < 0.5 else [])
